@@ -31,7 +31,14 @@ def norm(kind, so):
 def one_run(args, k, cwd, stdin, kind):
     rc, so, se = cli.run(args, stdin=stdin, cwd=cwd, env=dict(ENVS[k % len(ENVS)], VERIF_RUN=str(k)))
     so = norm(kind, so)
-    return {"exit": rc, "out": digest(so), "lines": digest("\n".join(sorted(so.split("\n")))),
+    structured = so
+    if kind == "mixed":
+        # -p: print-json documents (compared as bytes) inside console text (compared as lines)
+        try:
+            structured = json.dumps(cli.split_json_docs(so), sort_keys=False)
+        except ValueError:
+            structured = so
+    return {"exit": rc, "out": digest(structured), "lines": digest("\n".join(sorted(so.split("\n")))),
             "err": digest(se), "elines": digest("\n".join(sorted(se.split("\n")))), "_so": so, "_se": se}
 
 
@@ -74,7 +81,7 @@ def record(res, tier, tr):
                 dp = wd.write(base + "/d.json", c["data"])
                 d2 = wd.write(base + "/d2.json", clitrace.render_docs([clitrace.mutate_doc(c["doc"], rnd)])[0])
                 for m in clitrace.MODES:
-                    klass = "console" if m["fmt"] in ("summary", "none") else "bytes"
+                    klass = "console" if m["fmt"] in ("summary", "none") else ("mixed" if m["fmt"] == "pjson" else "bytes")
                     kind = "junit" if m["fmt"] == "junit" else klass
                     label = m["fmt"] + ":" + " ".join(m["args"])
                     job("validate", label, klass, ["validate", "-r", rp, "-d", dp, "-d", d2] + m["args"], kind=kind, what=base)
@@ -93,10 +100,29 @@ def record(res, tier, tr):
                 job("parse-tree", "yaml", "bytes", ["parse-tree", "-r", rp, "--print-yaml"], what=base)
         # rulegen
         tgen = gv(["record-rulegen", "--seed", seed() * 131, "--n", 3 * n, "--hard", 0, "--scratch", wd.path, "--out", os.path.join(wd.path, "tpl.ndjson")])
+        # cases an earlier run found (kept under /verif/fixtures/c05): always repeated
+        fx = os.path.join(VERIF, "fixtures", "c05")
+        for name in sorted(f[:-6] for f in os.listdir(fx) if f.endswith(".guard")):
+            rp, dp = os.path.join(fx, name + ".guard"), os.path.join(fx, name + ".json")
+            for label, extra in (("-S all", ["-S", "all"]), ("default", []), ("-v", ["-v"])):
+                job("validate", "fixture-console:" + label, "console", ["validate", "-r", rp, "-d", dp] + extra, what=name)
+            job("validate", "fixture-pjson", "mixed", ["validate", "-r", rp, "-d", dp, "-S", "none", "-p"], kind="mixed", what=name)
+        # failing checks at different nesting depths for different resource types
+        every = wd.write("every.guard",
+                         "rule every_resource {\n  Resources.*.Properties.nope exists <<needs nope>>\n}\n"
+                         "rule buckets {\n  Resources.*[ Type == \"AWS::S3::Bucket\" ] {\n    Properties {\n      nope exists\n    }\n  }\n}\n"
+                         "rule volumes {\n  when Resources exists {\n    Resources.*[ Type == \"AWS::EC2::Volume\" ] {\n      Properties {\n"
+                         "        when this exists {\n          nope exists\n        }\n      }\n    }\n  }\n}\n"
+                         "rule things {\n  Resources.*[ Type == \"Custom::Thing\" ].Properties.Size >= 1000 or Resources.*[ Type == \"Custom::Thing\" ].Properties.nope exists\n}\n")
         for k, l in enumerate(open(os.path.join(wd.path, "tpl.ndjson"))):
             t = json.loads(l)["template"]
             tp = wd.write("tpl%d.json" % k, t)
             job("rulegen", "stdout", "rulegen", ["rulegen", "-t", tp], kind="console", what="tpl%d" % k)
+            if k % 3 == 0:
+                # several failing resources of a template: the CloudFormation console reporter groups by resource
+                job("validate", "cfn-console:-S all", "console", ["validate", "-r", every, "-d", tp, "-S", "all"], what="tpl%d" % k)
+                job("validate", "cfn-console:default", "console", ["validate", "-r", every, "-d", tp], what="tpl%d" % k)
+                job("validate", "cfn-console:-v", "console", ["validate", "-r", every, "-d", tp, "-v"], what="tpl%d" % k)
     with open(tr, "w") as f:
         for l in lines:
             f.write(json.dumps(l) + "\n")
